@@ -32,7 +32,7 @@ ASSUMPTIONS = [
     'the wall clock is owned through the same sitecustomize seam (datetime.datetime.now/utcnow/today, time.time answer $VERIF_FAKE_NOW)',
 ]
 FLOOR = {'quick': 200, 'thorough': 1000}
-SPACE = {'quick': '6 project shapes x 3 option variants x (seeds 1..7, 6 listing orders, 4 histories); 7 ways of fixing the build time x 2 owned wall-clock times', 'thorough': 'seeds 1..63, 24 listing permutations, 6 histories'}
+SPACE = {'quick': '14 project shapes (1-3 root packages, single-file root modules, mixed root kinds in both orders; named / unnamed) x 3 option variants x (seeds 1..7, 6 listing orders, 4 histories); 7 ways of fixing the build time x 2 owned wall-clock times', 'thorough': 'seeds 1..63, 24 listing permutations, 6 histories'}
 JOB_TIMEOUT = 2400
 HOME = os.environ.get('VERIF_HOME', '/verif')
 REPO = os.environ.get('VERIF_REPO', '/repo')
@@ -70,10 +70,18 @@ def tree_hash(t: Dict[str, Tuple[str, Any]]) -> str:
     return core.h(sorted(t.items()))
 
 
-def mkproj(base: str, nroots: int) -> List[str]:
+def mkproj(base: str, nroots: Any) -> List[str]:
+    """nroots: a number of root packages, or a string over {p, m}: one root per letter, p = package, m = single-file module"""
     roots = []
-    for i in range(nroots):
+    shape = 'p' * nroots if isinstance(nroots, int) else nroots
+    for i, kind in enumerate(shape):
         name = ['aa', 'bb', 'cc'][i]
+        if kind == 'm':
+            (Path(base) / 'src').mkdir(parents=True, exist_ok=True)
+            mp = Path(base) / 'src' / f'{name}mod.py'
+            mp.write_text(f'"""Root module {name}."""\nclass M{i}:\n    "doc"\n    x = y = 0\n    def m(self): pass\nclass N{i}(M{i}): pass\ndef f{i}(a={{1, 2}}): pass\n')
+            roots.append(str(mp))
+            continue
         p = Path(base) / 'src' / name
         (p / 'sub').mkdir(parents=True)
         (p / '__init__.py').write_text(
@@ -211,9 +219,11 @@ def judge_project(nroots: int, named: bool, variant: str, tier: str, res: Dict[s
 
 
 def jobs(tier: str) -> Iterable[Tuple[str, Any]]:
-    for nroots in (1, 2, 3):
+    for nroots in (1, 2, 3, 'm', 'pm', 'mp', 'mpm'):
         for named in (False, True):
             for variant in OPTION_VARIANTS:
+                if isinstance(nroots, str) and tier == 'quick' and variant != 'default':
+                    continue
                 yield ('projects', ('proj', nroots, named, variant))
 
 
